@@ -256,7 +256,7 @@ theorem C19_undecodable (s : Sess) (sq : Nat) (hb : s.buf = []) :
   have := sendProcess_outs s { m := mkReject s sq } hb rfl
   simp only [process, softReject, List.nil_append]
   rw [this.1]
-  simp [builtFrame, mkReject, Sess.fresh]
+  simp [builtFrame, mkReject, Sess.fresh, updatePersist]
 
 /-- a frame without any MsgSeqNum for the scan: Reject with RefSeqNum 0, no delivery -/
 theorem C19_no_seqnum (s : Sess) (dec : Dec) (hb : s.buf = []) :
